@@ -130,6 +130,14 @@ def table_facts():
             for m in members:
                 w.check(m in rules or int(m) in [int(k) for k in rules],
                         f"sub-type without a payload rule: {version} {mt.name} {m.name}")
+        defined = {int(m) for m in const.SetReq}
+        for ptype, vts in const.VALID_TYPES.items():
+            for vt in vts:
+                w.check(int(vt) in defined and vt in const.VALID_SETREQ,
+                        f"child schema of {ptype.name} references a value type that is not defined "
+                        f"in {version}: {getattr(vt, 'name', vt)}")
+        w.check({int(p) for p in const.VALID_TYPES} == {int(p) for p in const.Presentation},
+                f"{version}: presentation types and child-schema table differ")
         if i > 0:
             prev = C.const_for(order[i - 1])
             for name, enum_ in groups.items():
